@@ -17,7 +17,7 @@ def snep_fragments(sim):
     out = []
     for i in range(n):
         g = sim.pick("snep.g", ["short", "version", "huge", "continue", "reject", "valid-put", "valid-get", "badlen", "random",
-                                "empty", "get-short", "put-nonascii", "get-nonascii"])
+                                "empty", "get-short", "put-nonascii", "get-nonascii", "get-frag-start", "get-frag-start", "put-frag-start"])
         body = sim.bytes("snep.body", sim.pick("snep.bl", [0, 3, 20, 120]), tag=i)
         f = {
             "short": b"\x10\x02\x00"[:sim.randint("snep.cut", 0, 3)] + b"", "version": b"\x20\x02" + struct.pack(">L", len(body)) + body,
@@ -27,6 +27,10 @@ def snep_fragments(sim):
             "badlen": b"\x10\x02" + struct.pack(">L", len(body) + sim.pick("snep.dl", [1, 7, 1000])) + body,
             "random": sim.bytes("snep.r", sim.pick("snep.rl", [1, 5, 6, 7, 60]), tag=50 + i), "empty": b"",
             "get-short": b"\x10\x01" + struct.pack(">L", 2) + b"\x00\x00",
+            # first fragment of a longer request with only a few of the announced octets; what follows (the other
+            # fragments, something else, or the end of the connection) is up to the rest of the list
+            "get-frag-start": b"\x10\x01" + struct.pack(">L", sim.pick("snep.fl", [4, 5, 50, 300])) + body[:sim.choose("snep.fk", 4)],
+            "put-frag-start": b"\x10\x02" + struct.pack(">L", sim.pick("snep.fl2", [4, 50, 300])) + body[:sim.choose("snep.fk2", 4)],
             "put-nonascii": b"\x10\x02" + struct.pack(">L", len(NONASCII)) + NONASCII,
             "get-nonascii": b"\x10\x01" + struct.pack(">L", 4 + len(NONASCII)) + struct.pack(">L", 100) + NONASCII,
         }[g]
